@@ -104,7 +104,7 @@ type c14case struct {
 	ran             atomic.Int64
 	ranTwice        atomic.Int64
 	failingOps      int
-	lateFailing     atomic.Int64 // failures signalled by goroutines while the case's cleanup functions were running
+	lateFailing     atomic.Int64      // failures signalled by goroutines while the case's cleanup functions were running
 	lateCtxs        []context.Context // contexts obtained by goroutines whose FIRST Context() call came as the case ended
 	liveDuring      bool
 	lateCleanup     bool
